@@ -48,6 +48,26 @@ def cases(seed, tier):
                 if prng.random() < 0.6:
                     T['concurrency'] = prng.randint(1, 3)
         outcomes = gdirect.gen_outcomes(prng, P, p_fail=0.15)
+        never = False
+        if i % 8 == 2 and P.get('children'):
+            # a task that is already finished (failed by its timeout) while
+            # its sub-workflow runs on, and a parallel branch that keeps the
+            # parent RUNNING: cancel must still reach that sub-workflow
+            wt = [T for T in P['tasks'] if T.get('workflow')]
+            plain = [T for T in P['tasks'] if not T.get('workflow')]
+            if wt and plain:
+                T = prng.choice(wt)
+                T['policies'] = {'timeout': 1}
+                C = [C for C in P['children'] if C['name'] == T['workflow']]
+                leafs = [X for X in (C[0]['tasks'] if C else [])
+                         if not X.get('workflow')]
+                K = prng.choice(plain)
+                K['async'] = True
+                for X in leafs:
+                    X['async'] = True
+                outcomes = [{'t': X['name'], 'outcome': ['never']}
+                            for X in leafs + [K]]
+                never = bool(leafs)
         out.append({
             'program': P, 'outcomes': outcomes,
             'strategy': {'name': prng.choice(['fifo', 'random', 'lifo',
@@ -59,6 +79,7 @@ def cases(seed, tier):
                        if prng.random() < 0.3 else {}),
             'max_boundaries': max_b,
             'bseed': prng.randint(0, 10 ** 6),
+            'never': never,
         })
     return out
 
@@ -125,6 +146,8 @@ def run_case(case):
         res['inconclusive'] = 'base run: ' + base.inconclusive
         return res
     for v in base.violations:
+        if case.get('never') and v.get('mech') == 'stuck':
+            continue      # actions that never answer keep the run open
         res['violations'].append(dict(v, phase='base'))
     brng = random.Random(case['bseed'])
     bounds = list(range(1, base.steps + 1))
@@ -167,6 +190,9 @@ def run_case(case):
         acked = 'result' in h
         was_live = state.get('target_state_before') in ('RUNNING', 'PAUSED')
         for v in run.violations:
+            if case.get('never') and v.get('mech') == 'stuck' and \
+                    not (acked and want == 'CANCELLED'):
+                continue
             res['violations'].append(dict(v, boundary=b, stop_state=want,
                                           stop_acked=acked))
         if not (acked and was_live):
@@ -210,8 +236,20 @@ def run_case(case):
                         before = ev['after']['state']
                 if before is None or before in TERMINAL:
                     continue
-                if sub['state'] != 'CANCELLED' or \
-                        ptask['state'] != 'CANCELLED':
+                pt_before = None
+                for ev in run.world.rec.events[:state['stop_seq']]:
+                    if ev['kind'] == 'ROW' and ev['table'] == 'task' and \
+                            ev['id'] == ptask['id'] and ev['after']:
+                        pt_before = ev['after']['state']
+                # (a parent task that had already finished - failed by its
+                # timeout, cancelled through another item - keeps its state)
+                # ... as does one whose own timeout fired before the
+                # cancelled sub-workflow had reported back
+                pt_ok = ptask['state'] == 'CANCELLED' or \
+                    pt_before in TERMINAL or (
+                        ptask['state'] == 'ERROR' and 'timed out' in
+                        (ptask.get('state_info') or '').lower())
+                if sub['state'] != 'CANCELLED' or not pt_ok:
                     res['violations'].append({
                         'prop': 'C11', 'monitor': 'tree-cancelled',
                         'mech': 'descendant-not-cancelled', 'boundary': b,
